@@ -8,6 +8,7 @@ import OmbottModel.Lemmas.RouterEditFreshWitness
 import OmbottModel.Lemmas.RouterListingKeys
 import OmbottModel.Lemmas.RouterListingRender
 import OmbottModel.Lemmas.RouterListingWitness
+import OmbottModel.Lemmas.RouterListingPrefix
 /-!
 C11 — The router after any edit history equals a freshly built router.
 Property theorems only; helper lemmas live in `Lemmas/RouterEdit*.lean`.
@@ -315,6 +316,28 @@ theorem routes_iter_yield_hooks (t : Node) :
       ((routesIter t).map listedOf).filterMap Listed.rule? :=
   ⟨routesIter_listed true t, routesIter_filterMap_rules true t,
     (routesIter_filterMap_rules true t).trans (routesIter_filterMap_rules false t).symm⟩
+
+/-- **`_routes_iter(startswith=sw)` selects by pattern prefix.**  In a well-formed tree whose
+listed patterns hold no literal marker character, for a marker-free `sw` the enumeration started
+with `startswith=sw` (walk along `sw` without filters, a key that `sw` ends inside is accepted
+when it starts with what is left) lists exactly the entries of the full enumeration whose pattern
+starts with `sw` up to filters — equivalently, whose pattern *string* starts with the string of
+`sw` — in the order of the full enumeration; a prefix no pattern has lists nothing. -/
+theorem routes_iter_startswith (yh : Bool) (t : Node) (h : WFN t) (sw : List Sym) (hsw : NoLitTok sw)
+    (hk : ∀ l ∈ listPostN yh t, NoLitTok l.pat) :
+    (routesIter t sw yh).map listedOf = ((routesIter t [] yh).map listedOf).filter (prefB sw) ∧
+    ∀ l ∈ (routesIter t [] yh).map listedOf, (prefB sw l = true ↔ patStr sw <+: patStr l.pat) := by
+  rw [routesIter_listed]
+  exact ⟨routesIter_startswith yh t h sw hsw hk, fun l hl => prefB_iff_patStr hsw (hk l hl)⟩
+
+/-- … and after any edit history, for any string `s` given as `startswith`: the routes whose
+pattern string starts with `s`, in the order of the full enumeration. -/
+theorem routes_iter_startswith_after_history (upper : Str → Str) (ops : List EditOp)
+    (hok : ∀ op ∈ ops, EditOK op) (s : Str) :
+    let R := Router.editRun upper ops
+    (routesIter R.tree (symsOfStr s)).map listedOf =
+      ((routesIter R.tree).map listedOf).filter (fun l => s.isPrefixOf (patStr l.pat)) :=
+  startswith_of_einv (editRun_inv upper ops hok) s
 
 /-- **After any edit history the enumeration of the tree, the `routes` index and the name index
 list the same routes** (corollary of `router_refines_maps`): the routes `_routes_iter()` yields
@@ -632,6 +655,16 @@ example : (((routesIter lsT (symsOfStr "a/".toList)).map listedOf).map fun l => 
       ["a/b".toList, "a/\r/d".toList, "a/\r".toList] ∧
     (((routesIter lsT (symsOfStr "ab".toList)).map listedOf).map fun l => patStr l.pat) = ["abc".toList] ∧
     (routesIter lsT (symsOfStr "abx".toList)) = [] := ⟨by decide, by decide, by decide⟩
+
+/-- `routes_iter_startswith`: the example tree is well formed and marker-free, `a/` is marker-free -/
+example : WFN lsT ∧ NoLitTok (symsOfStr "a/".toList) ∧ ∀ l ∈ listPostN true lsT, NoLitTok l.pat := by
+  refine ⟨lsT_wf, noLitTok_symsOfStr _, ?_⟩
+  have : listPostN true lsT = (routesIter lsT [] true).map listedOf := (routesIter_listed true lsT).symm
+  rw [this]
+  intro l hl
+  apply noLitTok_of_test
+  revert l
+  decide
 
 /-- `routes_iter_after_history`: the example history meets the hypothesis; one route survives and
 is what the tree, `routes` and the name `n` list -/
